@@ -103,7 +103,10 @@ class MultiLoopHarness:
             else:
                 wrapped = A.async_background_batcher(**opts)(fn)
 
-            def use_loop(li, calls):
+            end = cfg.get('end', 'runner')
+            nested_done = {}
+
+            def use_loop(li, calls, nest=None):
                 loop = aio.new_event_loop()
                 aio.set_event_loop(loop)
                 lname = loop.sim_name
@@ -122,21 +125,36 @@ class MultiLoopHarness:
                         emit('ret', cid, 'val', r, s.now - t_base)
                     except BaseException as e:     # noqa
                         emit('ret', cid, 'other', type(e).__name__, s.now - t_base)
+                    if nest is not None and j == 0:
+                        # the next loop is started from inside this task - which has just used the function - in a copy of
+                        # its context (what asyncio.to_thread and run_coroutine_threadsafe-style hand-offs do), while this
+                        # loop stays alive and waits for it
+                        import contextvars
+                        ctx = contextvars.copy_context()
+                        nli, ncalls, nnest = nest
+                        s.spawn(lambda: ctx.run(use_loop, nli, ncalls, nnest), f'T{nli}')
+                        while not nested_done.get(nli):
+                            await aio.sleep(B.BT / 2)
 
                 async def main_coro():
                     ts = [aio.ensure_future(call(j, c)) for j, c in enumerate(calls)]
                     await aio.wait(ts, timeout=32.0)
                     emit('pending', li, [j for j, t in enumerate(ts) if not t.done()])
-                    await aio.sleep(cfg['ret'] + 2 * cfg['bt'])
+                    if not end.startswith('early'):
+                        await aio.sleep(cfg['ret'] + 2 * cfg['bt'])
 
                 loop.run_until_complete(main_coro())
-                ts = aio.all_tasks(loop)
-                for t in ts:
-                    t.cancel()
-                if ts:
-                    loop.run_until_complete(aio.gather(*ts, return_exceptions=True))
+                if end.endswith('runner'):
+                    ts = aio.all_tasks(loop)
+                    for t in ts:
+                        t.cancel()
+                    if ts:
+                        loop.run_until_complete(aio.gather(*ts, return_exceptions=True))
+                # ('abrupt': closed by hand with the batcher's processing task - and, if 'early', its retention timers -
+                # still pending, as new_event_loop / run_until_complete / close sequences do)
                 loop.close()
                 emit('lclosed', li, lname)
+                nested_done[li] = True
 
             if mode == 'successive':
                 def body():
@@ -147,11 +165,16 @@ class MultiLoopHarness:
                             simrt.CUR[0].yield_point('gc')
                             gc.collect()       # drop the closed loop (weak registry entry must go with it)
                 s.spawn(body, 'T0')
+            elif mode == 'nested':
+                nest = None
+                for li in range(nloops - 1, 0, -1):
+                    nest = (li, calls_per_loop[li], nest)
+                s.spawn(lambda: use_loop(0, calls_per_loop[0], nest), 'T0')
             else:
                 for li in range(nloops):
                     s.spawn(lambda li=li: use_loop(li, calls_per_loop[li]), f'T{li}')
 
-        return simrt.execute(main, strategy, max_steps=200000, lines=(mode != 'successive'), watchdog=60.0)
+        return simrt.execute(main, strategy, max_steps=200000, lines=(mode == 'concurrent'), watchdog=60.0)
 
 
 class SegmentHarness:
@@ -379,7 +402,7 @@ class C15(Check):
 
     def run_multi(self, case, res):
         rng = random.Random(case['seed'])
-        mode = rng.choice(['successive', 'concurrent'])
+        mode = rng.choice(['successive', 'successive', 'concurrent', 'concurrent', 'nested'])
         nloops = rng.choice([1, 2, 3]) if mode == 'successive' else rng.choice([2, 3])
         cfg = {'size': rng.randint(1, 4), 'conc': rng.randint(1, 3), 'bt': B.BT, 'ret': rng.choice([0, B.BT / 2, 4 * B.BT]),
                'bdur': rng.choice([0, B.BT / 4, B.BT])}
@@ -388,9 +411,16 @@ class C15(Check):
         for i in range(rng.randint(1, 6)):
             t += rng.choice([0, 0, B.BT / 4, B.BT + B.BT / 16, 2 * B.BT])
             base.append({'t': t, 'key': rng.choice('abc')})
-        if mode == 'successive':
+        if mode == 'nested':
+            # loops overlap here, so their clocks differ by arbitrary amounts: timers that fall on the same instant may fire
+            # in either order (asyncio promises none) - arrival instants are made distinct so that loops stay comparable
+            base = [{'t': c['t'] + j * B.BT / 64, 'key': c['key']} for j, c in enumerate(base)]
+        if mode in ('successive', 'nested'):
             calls = [base] * nloops
             strat = simrt.Strategy('none')
+            # how a loop ends: tasks cancelled first (asyncio.run) or closed by hand with the processing task pending;
+            # 'early' = right after the last answer, while retention timers are still armed
+            cfg['end'] = rng.choice(['runner', 'runner', 'abrupt', 'early_runner', 'early_abrupt'])
         else:
             calls = []
             for li in range(nloops):
@@ -403,6 +433,8 @@ class C15(Check):
         st = res.stats
         st['executions'] += 1
         st[f'multi_{mode}'] += 1
+        if cfg.get('end', 'runner') != 'runner':
+            st['multi_loop_closed_abruptly_or_with_timers_armed'] += 1
         res.sig = r.signature
         if r.verdict == 'watchdog' or not r.clean:
             res.dirty = True
@@ -435,7 +467,7 @@ class C15(Check):
         res.nontrivial = len(served) >= 2
         if len(served) >= 2:
             st[f'multi_{mode}_two_or_more_loops_served'] += 1
-        if mode == 'successive' and nloops > 1 and not res.violations:
+        if mode in ('successive', 'nested') and nloops > 1 and not res.violations:
             # every later loop must behave like the first (relative times, batch shapes)
             def shape(li):
                 out = []
@@ -703,7 +735,8 @@ class C15(Check):
         return {'measured_size': 100, 'measured_conc': 100, 'measured_bt': 80, 'measured_ret': 100,
                 'measured_timeout': 30, 'measured_cache': 6, 'decorator_object_reused': 6, 'differential_programs': 3000 * k,
                 'multi_successive_two_or_more_loops_served': 500 * k,
-                'multi_concurrent_two_or_more_loops_served': 500 * k,
+                'multi_concurrent_two_or_more_loops_served': 500 * k, 'multi_nested_two_or_more_loops_served': 300 * k,
+                'multi_loop_closed_abruptly_or_with_timers_armed': 500 * k,
                 'segment_programs_returning_to_an_open_loop': 400 * k, 'segment_programs_one_function_wrapped_twice': 400 * k}
 
 
